@@ -19,9 +19,9 @@ META = dict(
     functions_encoded=['deb.Load', 'deb.loadDeb', 'deb.loadDeb2', 'deb.loadDeb2Control', 'deb.loadDeb2Data', '(*ArEntry).IsTarfile', '(*ArEntry).Tarfile', 'deb.DecompressorFor',
                        'gzipNewReader / xzNewReader / lzmaNewReader / bzipNewReader / zstdNewReader', 'the package initialiser (decoder table)', '(*Deb).Close', 'Control.SourceName',
                        'control.Unmarshal into deb.Control (reflect model)', 'the ar reader of C13', 'bufio.Reader', 'path.Clean', 'filepath.Ext'],
-    stubs=['codecs: each decoder accepts exactly the tagged container of its own extension and fails on any other stream (engine/symgo/archmodel.py); archive/tar: an abstract entry list parsed when the reader is created, Read may return one short read',
+    stubs=['codecs: each decoder accepts exactly the tagged container of its own extension and fails on any other stream (engine/symgo/archmodel.py); archive/tar: an abstract entry list parsed when the reader is created, Read may return one short read; a gzip stream may consist of two members, of which a reader with Multistream(false) delivers the first only',
            'the harness helpers verifTar / verifCompress are real (archive/tar, gzip, zstd writers) in native runs'],
-    bounds={'quick': 'all 6 x 6 combinations of control/data encodings; ./control first, second or last in its tarball, named ./control or control; an extra ar member or not; control paragraph with symbolic Package, Version, Architecture, Maintainer, Section, Depends, Description leaves (1-2 characters); two data files with symbolic names and contents; debian-binary 2.0 and four other values; each required member (and the control file inside the tarball) missing in turn',
+    bounds={'quick': 'all 6 x 6 combinations of control/data encodings; ./control first, second or last in its tarball, named ./control or control; extra ar members: none, one between control and data, one behind the data member, or both; control paragraph with symbolic Package, Version, Architecture, Maintainer, Section, Depends, Description leaves (1-2 characters); two data files with symbolic names and contents; debian-binary 2.0 and four other values; gzip tarballs made of two gzip members; each required member (and the control file inside the tarball) missing in turn',
             'thorough': 'leaves up to 3 characters for every encoding pair'},
     outside_claim=['real gzip / bzip2 / xz / lzma / zstd decoding and real archive/tar parsing (tens of thousands of lines with tables, unsafe and assembly: uninterpreted), hence also interoperability with packages built by dpkg-deb',
                    'native replay exists for the uncompressed, .gz and .zst encodings only (no writers for the others in the sandbox)'],
@@ -62,11 +62,16 @@ def jobs(tier):
     for ce in EXTS:
         for de in EXTS:
             k += 1
-            js.append(dict(name='load%s%s' % (ce.decode() or '.none', de.decode() or '.none'), kind='load', ce=ce, de=de, pos=k % 3, cname=[b'./control', b'control'][k % 2], extra=bool(k % 2), L=1 if tier == 'quick' else 2))
-    for pos, cname, extra, L in itertools.product((0, 1, 2), (b'./control', b'control'), (False, True), (1, 2)):
+            js.append(dict(name='load%s%s' % (ce.decode() or '.none', de.decode() or '.none'), kind='load', ce=ce, de=de, pos=k % 3, cname=[b'./control', b'control'][k % 2], extra=k % 4, L=1 if tier == 'quick' else 2))
+    for pos, cname, extra, L in itertools.product((0, 1, 2), (b'./control', b'control'), (0, 1, 2, 3), (1, 2)):
         js.append(dict(name='layout_%d_%s_%d_L%d' % (pos, cname.decode().replace('/', '_'), extra, L), kind='load', ce=b'.gz', de=b'', pos=pos, cname=cname, extra=extra, L=L))
     for b_ in (b'2.1\n', b'3.0\n', b'1.0\n', b'2.0', b''):
-        js.append(dict(name='binary_%s' % b_.strip().decode().replace('.', '_'), kind='load', ce=b'', de=b'.gz', pos=0, cname=b'./control', extra=False, L=1, binary=b_))
+        js.append(dict(name='binary_%s' % b_.strip().decode().replace('.', '_'), kind='load', ce=b'', de=b'.gz', pos=0, cname=b'./control', extra=0, L=1, binary=b_))
+    # gzip tarballs written as two concatenated gzip members (legal per RFC 1952; pigz-style block compressors and
+    # `cat a.gz b.gz` produce them), cut after 10 or 30 bytes
+    for ce, de in ((b'.gz', b'.gz'), (b'.gz', b''), (b'', b'.gz')):
+        for split in (10, 30):
+            js.append(dict(name='gzsplit%s%s_%d' % (ce.decode() or '.none', de.decode() or '.none', split), kind='load', ce=ce, de=de, pos=1, cname=b'./control', extra=0, L=1, split=split))
     for drop in range(4):
         for ce in (b'', b'.gz', b'.zst', b'.xz'):
             js.append(dict(name='missing_%d%s' % (drop, ce.decode()), kind='missing', drop=drop, ce=ce))
@@ -80,7 +85,7 @@ def run_job(env, job):
     sym = d.sym
     f0n, f1n = Str(tuple(b'./usr/') + sym.leaf(1, LOW, LOWD)), Str(tuple(b'./etc/') + sym.leaf(2, LOW, LOWD))
     f0d, f1d = symstr('d0', 2), symstr('d1', 0)
-    r = run_harness(env, PKG, 'VerifC14Load', [job['ce'], job['de'], job['pos'], job['cname'], ctl, exp, f0n, f0d, f1n, f1d, job['extra'], job.get('binary', b'2.0\n'), 0], sym.assume,
+    r = run_harness(env, PKG, 'VerifC14Load', [job['ce'], job['de'], job['pos'], job['cname'], ctl, exp, f0n, f0d, f1n, f1d, job['extra'], job.get('binary', b'2.0\n'), 0, job.get('split', 0)], sym.assume,
                        unwind=600, timeout_ms=300000,
                        sample=dict(control_encoding=job['ce'].decode(), data_encoding=job['de'].decode(), control_position=job['pos'], control_name=job['cname'].decode(), extra_member=job['extra'], debian_binary=job.get('binary', b'2.0\n').decode(), leaf_len=job['L']))
     gw = [g for g in r.get('global_writes', ()) if 'verif' not in g]
@@ -89,7 +94,7 @@ def run_job(env, job):
         # interfere with a Deb that is still being read.  Replayed natively by the same harness (two loads).
         r['cex'].append(dict(func='VerifC14Load', args=[job['ce'], job['de'], job['pos'], job['cname'], b'Package: p\nVersion: 1\nArchitecture: all\n',
                                                           b'Package=p\x00Source=\x00Version=1\x00Arch=all/all/all\x00Maintainer=\x00InstalledSize=0\x00MultiArch=\x00Depends=\x00Section=\x00Priority=\x00Homepage=\x00Description=\x00SourceName()=p\x00',
-                                                          b'./usr/a', b'hi', b'./etc/bb', b'', job['extra'], b'2.0\n', 0], kind='ret', code=10, msg='package-level variables written while loading: ' + ', '.join(gw)))
+                                                          b'./usr/a', b'hi', b'./etc/bb', b'', job['extra'], b'2.0\n', 0, 0], kind='ret', code=10, msg='package-level variables written while loading: ' + ', '.join(gw)))
         r['status'] = 'viol'
     r['samples'][0]['package_level_stores'] = gw
     return r
@@ -114,9 +119,11 @@ def validation_calls(env, seed):
     ctl = b'Package: p\nSource: s\nVersion: 1.0-1\nArchitecture: amd64\nMaintainer: M <m@x>\nInstalled-Size: 12\nMulti-Arch: same\nDepends: a (>= 1), b | c\nSection: x\nPriority: y\nHomepage: h\nDescription: d\n more\n'
     exp = b'Package=p\x00Source=s\x00Version=1.0-1\x00Arch=gnu/linux/amd64\x00Maintainer=M <m@x>\x00InstalledSize=12\x00MultiArch=same\x00Depends=a (>= 1), b | c\x00Section=x\x00Priority=y\x00Homepage=h\x00Description=d\nmore\x00SourceName()=s\x00'
     calls = []
-    for ce, de, pos, cn, extra in ((b'', b'', 0, b'./control', False), (b'.gz', b'.zst', 1, b'control', True), (b'.zst', b'.gz', 2, b'./control', False)):
-        calls.append(('VerifC14Load', [ce, de, pos, cn, ctl, exp, b'./usr/x', b'hi', b'./etc/yy', b'', extra, b'2.0\n', 0]))
-    calls.append(('VerifC14Load', [b'', b'', 0, b'./control', ctl, exp, b'./usr/x', b'hi', b'./etc/yy', b'', False, b'3.0\n', 0]))
+    for ce, de, pos, cn, extra in ((b'', b'', 0, b'./control', 0), (b'.gz', b'.zst', 1, b'control', 1), (b'.zst', b'.gz', 2, b'./control', 2), (b'', b'.gz', 0, b'control', 3)):
+        calls.append(('VerifC14Load', [ce, de, pos, cn, ctl, exp, b'./usr/x', b'hi', b'./etc/yy', b'', extra, b'2.0\n', 0, 0]))
+    calls.append(('VerifC14Load', [b'', b'', 0, b'./control', ctl, exp, b'./usr/x', b'hi', b'./etc/yy', b'', 0, b'3.0\n', 0, 0]))
+    for ce, de, split in ((b'.gz', b'.gz', 10), (b'.gz', b'', 30), (b'', b'.gz', 1024)):
+        calls.append(('VerifC14Load', [ce, de, 1, b'./control', ctl, exp, b'./usr/x', b'hi', b'./etc/yy', b'', 0, b'2.0\n', 0, split]))
     for drop in range(4):
         calls.append(('VerifC14Missing', [drop, b'.gz']))
     return calls
